@@ -181,10 +181,18 @@ def main(tier):
         # full at:k sweep only for the micro workloads, strided elsewhere; `every` is always complete
         def stride(wl, n):
             return 1 if wl in micro else max(1, n // 128)
-        for wl, heap in [(wl, None) for wl in micro + WORKLOADS] + [("micro1", "300k")]:
+        # two workloads at a time, half of the servers each: the longest single schedule of a workload (nth:7 over tens of
+        # thousands of allocations) no longer leaves the other cores idle
+        todo = [(wl, None) for wl in micro + WORKLOADS] + [("micro1", "300k")]
+        todo.sort(key=lambda a: 0 if a[0] in ("errors", "cast", "hash", "clibs") else 1)
+
+        def one(a):
             if chk.out_of_time():
-                break
-            run_workload(chk, wl, heap, common.NCPU, stride, stats)
+                chk.exhaustive = False
+                return
+            run_workload(chk, a[0], a[1], max(2, common.NCPU // 2), stride, stats)
+        with ThreadPoolExecutor(2) as ex:
+            list(ex.map(one, todo))
     else:
         def stride(wl, n):
             return 1
